@@ -4,10 +4,13 @@ CONSTANTS
   BkExact = TRUE
   DevF9 = FALSE
   DevIIdxAll = FALSE
+  DevCreateStale = FALSE
   MaxDepth = 3
+  RichAt = 1
   Modes = {"k", "i"}
   FkModes = {0}
-  FkCols <- FkColsAB
+  FkCols <- FkColsA
+  Seeds <- SeedsAll
   Wide = FALSE
 INVARIANTS InvHasKey InvIdxCols InvFkValid InvLinks InvBestKey InvData InvViews
 CHECK_DEADLOCK FALSE
